@@ -63,6 +63,10 @@ def script_property(run, gen, relevant, variants_quick=("sse2-debug",), variants
     all_findings += getattr(run, "extra_findings", [])
     prop_f = [f for f in all_findings if relevant(f)]
     tie_f = [f for f in all_findings if f.kind in ("C-MISMATCH", "T-MISMATCH", "D-ERROR") and not relevant(f)]
+    if os.environ.get("HV_DEBUG"):        # every finding of the run, with its relevance for this property
+        for f in all_findings[:200]:
+            print(f"DEBUG-FINDING relevant={relevant(f)} {f.kind} script={f.script} {f.text[:300]}", file=sys.stderr)
+        print(f"DEBUG-FINDINGS total={len(all_findings)} relevant={len(prop_f)} tie={len(tie_f)}", file=sys.stderr)
 
     def report(findings, search_note=""):
         seen = set()
@@ -617,8 +621,8 @@ def check_c16(run):
     return H.finish(run, cov, "proof", assumptions=[cov["partial"]])
 
 HT = lambda f: f.text
-LEAKY = ("double drop", "leak", "never dropped", "blocks still allocated", "wrong layout", "unknown block", "already been dropped", "double drops")
-MEMORY = ("red zone", "invalid layout", "unknown block", "wrong layout", "MISALIGNED", "misaligned reference", "SLOT_OUT_OF_BLOCK", "already been dropped", "two mutable references", "assertion")
+LEAKY = ("different allocator instance", "double drop", "leak", "never dropped", "blocks still allocated", "wrong layout", "unknown block", "already been dropped", "double drops")
+MEMORY = ("double drop", "red zone", "invalid layout", "unknown block", "wrong layout", "MISALIGNED", "misaligned reference", "SLOT_OUT_OF_BLOCK", "already been dropped", "two mutable references", "assertion")
 
 def gen_fault_scripts(tier, seed, variant):
     rng = random.Random(seed)
@@ -714,7 +718,10 @@ def gen_layout_scripts(tier, seed, variant):
 def gen_clone_scripts(tier, seed, variant):
     rng = random.Random(seed)
     n = 48 if tier == "quick" else 160
-    return "".join(gen_map.make_script(rng, f"c{seed}_{i}", clone_ops=True, kind=rng.choice(["map-drop", "map-drop", "map-plain", "map-nc"])) for i in range(n))
+    out = [gen_map.make_script(rng, f"c{seed}_{i}", clone_ops=True, kind=rng.choice(["map-drop", "map-drop", "map-plain", "map-nc"])) for i in range(n)]
+    # clone_from between two separately constructed maps (two allocator instances), both directions
+    out += [gen_map.make_two_allocator_script(rng, f"c2a{seed}_{i}") for i in range(n // 6)]
+    return "".join(out)
 
 def check_c02(run):
     return script_property(
